@@ -1,6 +1,7 @@
 fn emit_global_declarations(
     globals: &[GlobalVariable],
     list_decls: &[ListDeclaration],
+    context: &EmitContext,
 ) -> Result<EmittedContainer, CompilerError> {
     let mut container = EmittedContainer::default();
     container.push(json!("ev"));
@@ -26,7 +27,14 @@ fn emit_global_declarations(
     }
 
     for global in globals {
-        emit_expression(&global.initial_value, &mut container.content);
+        // With the context, so that bare list items in a list literal
+        // (`VAR v = (a, b)`) resolve to their qualified names and values.
+        emit_expression_ctx(
+            &global.initial_value,
+            &mut container.content,
+            Some(context),
+            None,
+        );
         container.push(json!({ "VAR=": global.name }));
     }
 
